@@ -870,6 +870,8 @@ func handler(item string, replay []int, isReplay bool, journal func([]int)) mc.I
 		return seqItem(item, replay, isReplay)
 	case strings.HasPrefix(item, "conc|"):
 		return concItem(item, replay, isReplay, journal)
+	case strings.HasPrefix(item, "multi|"):
+		return multiItem(item, replay, isReplay)
 	}
 	return mc.ItemResult{Item: item, ToolError: "unknown item"}
 }
@@ -941,6 +943,16 @@ func main() {
 		items = append(items, fmt.Sprintf("seq|%d|1|", size))
 	}
 	items = append(items, "seq|0|0|")
+	// (d) two syncers in one process: independent ones of the same size, and one buffering in front of the other
+	mdepth := 6
+	if thorough {
+		mdepth = 7
+	}
+	for _, top := range []string{"two", "nested"} {
+		for o := 0; o < nMulti; o++ {
+			items = append(items, fmt.Sprintf("multi|%s|%d|%d", top, mdepth, o))
+		}
+	}
 	nseq := len(items)
 	// (b) concurrent
 	pre := 2
@@ -1031,6 +1043,7 @@ func main() {
 	run.Assume = []string{
 		"scheduling points at synchronisation operations only (lock, channel, select, go); data-race freedom of the same code is C09's subject",
 		"crash = process death (SIGKILL); torn OS-level writes are below zap",
+		"several syncers: every history of <= the stated length over two syncers of the same size with their own sinks, and over a syncer buffering in front of another one that is also written to directly (Write / Sync / Stop on either, no instance stopped twice); buffers larger than a history's bytes, so bytes move only in Sync and Stop; after every step each sink holds exactly its own bytes in acceptance order",
 		"Go 1.23 runtime channel header layout (validated at start-up by vsched.SelfTest)",
 	}
 	run.Finish(map[string]any{
@@ -1044,6 +1057,7 @@ func main() {
 		"rule":                          "every op sequence (sequential) / every schedule within the preemption bound (concurrent) is one execution of the real BufferedWriteSyncer; distinct = distinct canonical end observations (sink order, number of sink calls, held bytes)",
 		"sequential_items":              nseq,
 		"sequential_depth":              depth,
+		"two_syncer_history_depth":      mdepth,
 		"sequential_depth_note":         "thorough: size 4 additionally to depth+1",
 		"concurrent_drivers":            nconc,
 		"preemption_bound":              pre,
